@@ -357,6 +357,51 @@ def tie_c(prop, cases, seed, tier):
     return stats, mine
 
 
+# ------------------------------------------------------------------ rustc's trait solver on the generated impls (tie D)
+def tie_d(prop, tier, cases=(), priority=()):
+    """trait-implemented probes for marker instantiations (D1) and must-fail / must-compile pairs (D2), real rustc, real macro"""
+    import concurrent.futures
+    import solver
+    if prop not in ('C01', 'C02', 'C06', 'C09', 'C17'):
+        return None, []
+    cfgs = ['default', 'zeroize-on-drop'] if tier == 'quick' else PROPS[prop]['cfgs']
+    cfgs = [c for c in cfgs if c in PROPS[prop]['cfgs']]
+    jobs = []
+    if prop in ('C01', 'C02', 'C09'):
+        jobs += [('d1', c) for c in cfgs]
+    if prop in ('C02', 'C06', 'C17'):
+        jobs += [('d2', c) for c in cfgs]
+    out, problems = {}, []
+    with concurrent.futures.ThreadPoolExecutor(max_workers=6) as ex:
+        extra = solver.corpus_items(cases, priority)
+        futs = {(ex.submit(solver.run_d1, c, None, extra) if k == 'd1' else ex.submit(solver.run_d2, c)): (k, c) for k, c in jobs}
+        for f in concurrent.futures.as_completed(futs):
+            st, pr = f.result()
+            out.setdefault(futs[f][0], {})[futs[f][1]] = st
+            problems += pr
+    mine = []
+    for p in problems:
+        cid = p['case']
+        if prop == 'C01':
+            ok = cid.startswith('d1/')
+        elif prop == 'C09':
+            ok = cid.startswith('d1/') and (p.get('trait') in ('Clone', 'Copy') or 'union' in cid)
+        elif prop == 'C17':
+            ok = cid.startswith('d2/eq/') or cid.startswith('d2/eqbound/') or cid.startswith('d2/union/')
+        elif prop == 'C06':
+            ok = cid.startswith('d2/traitless/') or (cid.startswith('d2/eq/') and 'skip' in cid)
+        else:
+            ok = True
+        if ok:
+            mine.append(p)
+    stats = dict(trait_implemented_answers=sum(s['answers'] for s in out.get('d1', {}).values()),
+                 items=sum(s['items'] for v in out.values() for s in v.values()),
+                 must_fail_items=sum(s['must_fail'] for s in out.get('d2', {}).values()),
+                 per_cfg={k: {c: {a: b for a, b in s.items() if not a.startswith('_')} for c, s in v.items()} for k, v in out.items()},
+                 samples=[x for s in out.get('d1', {}).values() for x in s.get('_samples', [])][:2])
+    return stats, mine
+
+
 # ------------------------------------------------------------------ known findings
 def known_findings(prop, cases):
     """open findings of this property whose witness still shows the failing construct in the REAL expansion"""
@@ -464,6 +509,11 @@ def check(prop, tier, seed):
         violations.insert(0, (dict(kind='diagnostics', property=prop, observed=p,
                                    note='rustc, running the real proc-macro entry points on this item, reports diagnostics that contradict the property',
                                    replay_cmd='./dwv replay <this file>'), True))
+    dstats, dprobs = tie_d(prop, tier, cases, {d['case'] for d in mine})
+    for p in dprobs[:5]:
+        violations.insert(0, (dict(kind='solver', property=prop, observed=p,
+                                   note='rustc, compiling the real expansion of this item, answers a trait query (or a compile pair) differently from what the property requires',
+                                   replay_cmd='./dwv replay <this file>'), True))
     # a correspondence break that the behaviour run explains counts as found
     if found_cases:
         violations = [v for v in violations if v[1] or v[0].get('kind') != 'correspondence' or v[0]['disagreement']['case'] not in found_cases]
@@ -491,6 +541,7 @@ def check(prop, tier, seed):
             known_findings_reproduced=[k['id'] for k in known],
             behaviour=bstats if bstats else 'not applicable to this property',
             rustc_diagnostics=cstats if cstats else 'not applicable to this property',
+            rustc_trait_solver=dstats if dstats else 'not applicable to this property',
             extraction_crosscheck_vm_compute=xc,
             samples=samples, exhaustive=False),
         assumptions=TRUSTED_BASE)
@@ -505,6 +556,9 @@ def check(prop, tier, seed):
     if cstats:
         print('diagnostics (real rustc, real entry points): %d rejected items (%d errors, %d ill-posed discarded), %d token soups (%d accepted); %d problems'
               % (cstats['rejected_items_checked'], cstats['errors_seen'], cstats['ill_posed_discarded'], cstats['soups'], cstats['soups_accepted'], len(cprobs)))
+    if dstats:
+        print('trait solver (real rustc): %d items, %d `Item<M1, M2>: Trait` answers compared with the documented rule and the model\'s where-clauses, %d must-fail items; %d problems'
+              % (dstats['items'], dstats['trait_implemented_answers'], dstats['must_fail_items'], len(dprobs)))
     if model_sem_mismatch and not violations:
         p = model_sem_mismatch[0]
         print('MODEL-SEMANTICS-MISMATCH (no verdict): Sem.v disagrees with rustc on %s %s tag=%s' % (p['cfg'], p['case'], p['tag']))
